@@ -88,8 +88,16 @@ def run(tier, v):
             scen.append({"crate": crate, "kind": name, "script": script, "port": port, "n": 0, "len": 1400, "cap": 1, "conns": 1, "server": False})
             if tier == "thorough":
                 scen.append({"crate": crate, "kind": name, "script": [dict(st, n=max(1, st.get("n", 1) // 10)) for st in script], "port": port, "n": 0, "len": 1400, "cap": 10, "conns": 10, "server": False})
+    # far more connections than the configured capacity (a scan, many short connections): what is kept is bounded by the CAPACITY,
+    # however many connections have been seen; every segment carries TCP timestamps, so the TCP tracker has something to keep
+    many = 20000 if tier == "thorough" else 3000
+    for crate in ("tcp", "uni", "http", "tls"):
+        for cap in (1, 8):
+            scen.append({"crate": crate, "kind": "random", "n": 2, "len": 60, "cap": cap, "conns": many, "server": False, "timestamps": True})
+    scen.append({"crate": "tcp", "kind": "random", "n": nseg // 4, "len": 200, "cap": 4, "conns": 4, "server": False, "timestamps": True})
+    scen.append({"crate": "uni", "kind": "tls_appdata", "n": nseg // 4, "len": 200, "cap": 4, "conns": 4, "server": True, "timestamps": True})
     for i, s in enumerate(scen):
-        s.update(id=i, seed=vlib.seed(), stop_retained=BASE + s["conns"] * L, stop_alloc=A + B * 1500)
+        s.update(id=i, seed=vlib.seed(), stop_retained=BASE + min(s["conns"], s["cap"]) * L, stop_alloc=A + B * 1500)
     req = os.path.join(wd, "res.req")
     vlib.write_ndjson(req, scen)
     out = os.path.join(wd, "res.out")
@@ -109,7 +117,7 @@ def run(tier, v):
             n_pk += max(e["idx"] for e in o["events"]) * s["conns"]
             maxima.append({"crate": s["crate"], "kind": s["kind"], "server": s["server"], "conns": s["conns"], "max_retained": o["max_retained"], "max_allocated_per_packet": o["max_allocated"],
                            "packets": max(e["idx"] for e in o["events"])})
-            f.write(json.dumps({"id": o["id"], "conns": s["conns"], "events": o["events"]}) + "\n")
+            f.write(json.dumps({"id": o["id"], "conns": min(s["conns"], s["cap"]), "cap": s["cap"], "over": s["conns"] > 8 * s["cap"] + 64, "events": o["events"]}) + "\n")
     r2 = vlib.tlc("TV_C11", pid=PID, workers=8, env={"TRACE": trace}, timeout=1800, heap="10g")
 
     if tier == "thorough":
@@ -127,6 +135,11 @@ def run(tier, v):
             dev = "D11_tls_nonhello"
         if dev and dev in K:
             v.known_hit(dev, WHAT[dev])
+            continue
+        if b["retained_bound"] == -1:
+            v.violation({"scenario": {k: s[k] for k in ("crate", "kind", "n", "len", "cap", "conns", "server")},
+                         "observed": "what the analyzer keeps goes on growing with the number of connections seen, far beyond its connection capacity (no plateau: more than 64 KiB above what was kept when the tables first filled)",
+                         "last_event": b["event"]})
             continue
         v.violation({"scenario": {k: s[k] for k in ("crate", "kind", "n", "len", "cap", "conns", "server")}, "first_event_over_a_bound": b["event"],
                      "retained_bound": b["retained_bound"], "work_bound": b["work_bound"], "retained_within_bound": b["retained_ok"], "work_within_bound": b["work_ok"]})
